@@ -71,6 +71,7 @@ type cycleCtx struct {
 func (j *judge) ctxOf(s *step, cyc int) *cycleCtx {
 	o := j.d.befores[cyc]
 	c := &cycleCtx{s: s, o: o, m: oracle.NewModel(&j.d.c.Config, o), nodes: map[string]*v1.Node{}, pods: map[string]*v1.Pod{}, handoff: map[string][]string{}}
+	c.m.HandoffResidue = true
 	for _, n := range o.Nodes {
 		c.nodes[n.Name] = n
 	}
